@@ -90,6 +90,41 @@ type Evaluator struct {
 	depth      int
 	AnyVals    []Value // values served by host.any_val(i)
 	curMod     *modState
+	// pendingSlot counts operands that are already evaluated, still waiting for their operator or
+	// call, and whose expression may denote a container slot itself (element / field read). A
+	// slot write while it is > 0 is recorded as feature "hazard:slot-operand" (used only to
+	// exclude the trigger of an open finding; it does not change evaluation).
+	pendingSlot int
+}
+
+// yieldsSlot: may the value of e be the container slot itself (not a freshly computed value)?
+func yieldsSlot(e Expr) bool {
+	switch e := e.(type) {
+	case Index:
+		return true
+	case Member:
+		return true
+	case Call:
+		return true
+	case Paren:
+		return yieldsSlot(e.X)
+	case *Block:
+		return e.Tail != nil && yieldsSlot(e.Tail)
+	case *If:
+		if e.Then.Tail != nil && yieldsSlot(e.Then.Tail) {
+			return true
+		}
+		return e.Else != nil && yieldsSlot(e.Else)
+	case *Match:
+		for _, a := range e.Arms {
+			if yieldsSlot(a.Body) {
+				return true
+			}
+		}
+	case *Try:
+		return yieldsSlot(e.Body) || yieldsSlot(e.Catch)
+	}
+	return false
 }
 
 func NewEvaluator(p *Program) *Evaluator {
@@ -445,12 +480,18 @@ func rangeItems(r RangeV) []Value {
 
 func (ev *Evaluator) evalArgs(as []Expr, e *env) ([]Value, *ctrl) {
 	out := make([]Value, len(as))
+	n := 0
+	defer func() { ev.pendingSlot -= n }()
 	for i, a := range as {
 		v, c := ev.eval(a, e)
 		if c != nil {
 			return nil, c
 		}
 		out[i] = v
+		if yieldsSlot(a) {
+			ev.pendingSlot++
+			n++
+		}
 	}
 	return out, nil
 }
@@ -566,6 +607,14 @@ func (ev *Evaluator) eval(x Expr, e *env) (Value, *ctrl) {
 				return fv, nil
 			}
 		}
+		if r, ok := bv.(RangeV); ok {
+			switch x.Name {
+			case "start":
+				return IntV(r.Start), nil
+			case "end":
+				return IntV(r.End), nil
+			}
+		}
 		return nil, ev.abort("member value " + x.Name)
 	case Cast:
 		v, c := ev.eval(x.X, e)
@@ -677,6 +726,10 @@ func (ev *Evaluator) infix(x Infix, e *env) (Value, *ctrl) {
 			return nil, c
 		}
 		return r, nil
+	}
+	if yieldsSlot(x.L) {
+		ev.pendingSlot++
+		defer func() { ev.pendingSlot-- }()
 	}
 	r, c := ev.eval(x.R, e)
 	if c != nil {
@@ -837,7 +890,7 @@ func (ev *Evaluator) place(x Expr, e *env) (*place, *ctrl) {
 			return nil, c
 		}
 		ev.feat("elem-write")
-		return &place{func() Value { return l.Elems[i] }, func(v Value) { l.Elems[i] = v }}, nil
+		return &place{func() Value { return l.Elems[i] }, func(v Value) { ev.slotWrite(); l.Elems[i] = v }}, nil
 	case Member:
 		bv, c := ev.eval(x.X, e)
 		if c != nil {
@@ -851,7 +904,7 @@ func (ev *Evaluator) place(x Expr, e *env) (*place, *ctrl) {
 			return nil, ev.abort("member-assign missing field")
 		}
 		ev.feat("field-write")
-		return &place{func() Value { return o.M[x.Name] }, func(v Value) { o.M[x.Name] = v }}, nil
+		return &place{func() Value { return o.M[x.Name] }, func(v Value) { ev.slotWrite(); o.M[x.Name] = v }}, nil
 	}
 	return nil, ev.abort(fmt.Sprintf("place %T", x))
 }
@@ -877,6 +930,12 @@ func (ev *Evaluator) assign(x Assign, e *env) (Value, *ctrl) {
 	}
 	pl.set(nv)
 	return NullV{}, nil
+}
+
+func (ev *Evaluator) slotWrite() {
+	if ev.pendingSlot > 0 {
+		ev.feat("hazard:slot-operand")
+	}
 }
 
 func normIndex(i int64, n int) (int, *ctrl) {
@@ -939,7 +998,13 @@ func (ev *Evaluator) call(x Call, e *env) (Value, *ctrl) {
 			_, isField = o.M[m.Name]
 		}
 		if !isField {
+			if yieldsSlot(m.X) {
+				ev.pendingSlot++
+			}
 			args, c := ev.evalArgs(x.Args, e)
+			if yieldsSlot(m.X) {
+				ev.pendingSlot--
+			}
 			if c != nil {
 				return nil, c
 			}
